@@ -797,3 +797,13 @@ Definition ch_check cfg ops tr : bool :=
 (* how many alternatives hold anything at all (value or placeholder) *)
 Definition ch_occupied (s: cstate) : nat :=
   length (filter (fun c => match c with Some _ => true | None => false end) (rslots (c_cv s))).
+
+(* ------------------------------------------------------------------------------------------ *)
+(* a scalar object: None = valueless (schema).  Arithmetic, conversion and comparison all go   *)
+(* through `_value`, which is then the noValue sentinel whose every operation raises           *)
+Definition scalar := option Z.
+Definition scalar_unop {A} (x: scalar) (f: Z -> A) : res A :=
+  match x with Some z => Ok (f z) | None => Err ELib end.
+Definition scalar_binop {A} (x y: scalar) (f: Z -> Z -> A) : res A :=
+  match x, y with Some a, Some b => Ok (f a b) | _, _ => Err ELib end.
+Definition scalar_cmp (x y: scalar) (f: Z -> Z -> bool) : res bool := scalar_binop x y f.
